@@ -507,7 +507,60 @@ def gen_prec():
     return {"levels": [len(l) for l in op_levels], "atoms": atoms}
 
 
-GENERATORS = [("GenPrec", gen_prec), ("GenPanicSites", gen_panic_sites), ("GenPipeline", gen_pipeline), ("GenTopo", gen_topo), ("GenStages", gen_stages), ("GenTokens", gen_tokens), ("GenLegend", gen_legend), ("GenDecoders", gen_decoders)]
+# ------------------------------------------------------------------------------------------
+# problem codes, the Problem:: names each rule module can report, the unsupported standard types -> GenRules.v
+# ------------------------------------------------------------------------------------------
+def gen_rules():
+    csv = read("compiler/problems/resources/problem-codes.csv").splitlines()
+    if not csv or not csv[0].startswith("Code,Name"):
+        raise Refuse("problem-codes.csv: header changed")
+    codes = {}
+    for line in csv[1:]:
+        if not line.strip():
+            continue
+        f = line.split(",")
+        m = re.fullmatch(r"P(\d{4})", f[0])
+        if not m or not re.fullmatch(r"\w+", f[1]):
+            raise Refuse("problem-codes.csv: unexpected row %r" % line)
+        codes[f[1]] = int(m.group(1))
+    stages = gen_stages()
+    per_rule = []
+    for r in stages["rules"]:
+        src = read("compiler/analyzer/src/%s.rs" % r).split("#[cfg(test)]")[0]
+        src = "\n".join(code_lines(src))
+        names = []
+        for n in re.findall(r"Problem::(\w+)", src):
+            if n not in codes:
+                raise Refuse("%s.rs reports Problem::%s which has no code" % (r, n))
+            if n not in names:
+                names.append(n)
+        todo = bool(re.search(r"Diagnostic::todo", src))
+        per_rule.append((r, names, todo))
+    std = read("compiler/analyzer/src/stdlib.rs")
+    m = re.search(r"static STANDARD_LIBRARY_TYPES_LOWER_CASE: Set<&'static str> = phf_set! \{(.*?)\};", std, re.S)
+    if not m or "STANDARD_LIBRARY_TYPES_LOWER_CASE.contains(&ty.name.lower_case().to_string())" not in std:
+        raise Refuse("stdlib.rs: the unsupported type set no longer has the modelled shape")
+    types = re.findall(r'"([^"]+)"', "\n".join(code_lines(m.group(1))))
+    o = ["(* GENERATED by tools/translate.py from compiler/problems/resources/problem-codes.csv, the rule modules named in",
+         "   compiler/analyzer/src/stages.rs and compiler/analyzer/src/stdlib.rs -- do not edit *)",
+         "From Coq Require Import List String NArith.", "Import ListNotations.", "Local Open Scope string_scope.", ""]
+    for n, c in sorted(codes.items(), key=lambda x: x[1]):
+        o.append("Definition P_%s : N := %d%%N." % (n, c))
+    o.append("")
+    o.append("(* per rule module: the problems it can report (in order of first mention) and whether it has a Diagnostic::todo exit *)")
+    o.append("Definition rule_problems : list (string * (list N * bool)) := [")
+    o.append(";\n".join("  (%s, ([%s], %s))" % (coq_string(r), "; ".join("P_" + n for n in names), "true" if todo else "false")
+                        for r, names, todo in per_rule))
+    o.append("].")
+    o.append("")
+    o.append("(* function block types of the standard library that are named but not implemented (lower case) *)")
+    o.append("Definition unsupported_types : list (list N) := [" + "; ".join(coq_text(t) for t in types) + "].")
+    o.append("")
+    write_if_changed("GenRules.v", "\n".join(o) + "\n")
+    return {"codes": len(codes), "rules": {r: names for r, names, _ in per_rule}, "unsupported": len(types)}
+
+
+GENERATORS = [("GenRules", gen_rules), ("GenPrec", gen_prec), ("GenPanicSites", gen_panic_sites), ("GenPipeline", gen_pipeline), ("GenTopo", gen_topo), ("GenStages", gen_stages), ("GenTokens", gen_tokens), ("GenLegend", gen_legend), ("GenDecoders", gen_decoders)]
 
 
 def main():
